@@ -7,7 +7,7 @@ from ..models import verify_models
 from ..rules import vstr, fstr, transfers, tiling, check_const_transmute, peq, pipe_len
 from ..typestate import Classifier, check_closure_protocol
 from ..absint import State
-from ..tys import tstr, strip_wrappers
+from ..tys import tstr, strip_wrappers, adt_args
 from . import c04, c05, c06, c09
 
 EXPLANATION = (
@@ -414,7 +414,13 @@ def check_assume_init(ctx, cfg):
             ai = a.calls_to("core::mem::MaybeUninit::<T>::assume_init")
             ok = ok and src_glue_free and len(ai) == 1 and ai[0].args[0] == r["val"] and all(x["val"] == ai[0].ret for x in a.returns)
             det = "reads [%r,+%r) of the %r-byte parameter (no drop glue: %s) and returns its assume_init" % (r["off"], r["size"], total, src_glue_free)
-        ctx.ob(rule, key, ok, det, at=b["at"], cfg=cfg)
+        if ok:
+            ctx.ob(rule, key, ok, det, at=b["at"], cfg=cfg)
+        else:
+            # written with another idiom (transmute_copy, a cast read ..): decided by byte provenance - the result is the parameter's N*S bytes,
+            # in place, the parameter (which has no drop glue) is not released, no foreign code runs
+            _builder_tn = lambda a_: ([x for x in adt_args(a_.body["impl_self"])][0], a_.tenv.length([x for x in adt_args(a_.body["impl_self"])][1]))
+            c09.provenance_rule(ctx, cfg, key, lambda a_, S, N: [[(N * S, c09.A1, c09.Z)]], rule=rule, elem_len=_builder_tn)
         n += 1
     key = "GenericArray<$0,$1>::assume_init"
     b = ctx.body(cfg, key, rule)
@@ -427,7 +433,10 @@ def check_assume_init(ctx, cfg):
             sa, sb = a.tenv.size(cs[0].targs[0]), a.tenv.size(cs[0].targs[1])
             ok = prove(("==", sa - sb), a.poly_facts(cs[0].facts))
             det = "const_transmute::<%s, %s>: sizes %r == %r" % (tstr(cs[0].targs[0]), tstr(cs[0].targs[1]), sa, sb)
-        ctx.ob(rule, key, ok, det, at=b["at"], cfg=cfg)
+        if ok:
+            ctx.ob(rule, key, ok, det, at=b["at"], cfg=cfg)
+        else:
+            c09.provenance_rule(ctx, cfg, key, lambda a_, S, N: [[(N * S, c09.A1, c09.Z)]], rule=rule)
         n += 1
     key = "ArrayBuilder<$0,$1>::assume_init"
     b = ctx.body(cfg, key, rule)
@@ -439,7 +448,18 @@ def check_assume_init(ctx, cfg):
         if ok:
             r = tr["read"][0]
             ok = r["base"][0] == "field" and r["base"][1] == ("local", 1) and peq(a, frozenset(), r["off"], Poly.const(0)) and a.dominates(r["bb"], fg[0].bb)
-        ctx.ob(rule, key, ok, "reads the whole array field out of self, then forgets self (so the builder's Drop cannot release the moved elements)", at=b["at"], cfg=cfg)
+        if ok:
+            ctx.ob(rule, key, ok, "reads the whole array field out of self, then forgets self (so the builder's Drop cannot release the moved elements)", at=b["at"], cfg=cfg)
+        else:
+            # another order / idiom (disarm with ManuallyDrop first, then move the field out): by byte provenance the result is the N*S bytes of
+            # self's array field, and self is never dropped on the normal path
+            from ..ownership import owner_adts
+            o = owner_adts(ctx.db(cfg)).get(b["impl_self"]["def"])
+            _builder_tn = lambda a_: (adt_args(a_.body["impl_self"])[0], a_.tenv.length(adt_args(a_.body["impl_self"])[1]))
+            if o is None:
+                ctx.ob(rule, key, MISSING, "ArrayBuilder is not a tracked owner", at=b["at"], cfg=cfg)
+            else:
+                c09.provenance_rule(ctx, cfg, key, lambda a_, S, N: [[(N * S, ("field", ("arg", 1), (o["array"],)), c09.Z)]], rule=rule, elem_len=_builder_tn)
         n += 1
     return n
 
